@@ -24,7 +24,7 @@ COQ = os.path.join(VERIF, "coq")
 THEORIES = os.path.join(COQ, "theories")
 ORACLE = os.path.join(VERIF, "oracle")
 HARNESS = os.path.join(VERIF, "harness")
-REPO = "/repo"
+REPO = os.path.abspath(os.environ.get("VERIF_REPO", "/repo"))  # mutation experiments point this at a scratch worktree
 
 GOENV = dict(os.environ, GOFLAGS="-mod=mod", GOPROXY="off", GOSUMDB="off",
              GOTOOLCHAIN="local")
@@ -179,6 +179,10 @@ def build_oracle(pid):
 def build_harness(cmd):
     """go build -tags verif of harness/cmd/<cmd> against /repo's current working tree."""
     shutil.copy(os.path.join(REPO, "go.sum"), os.path.join(HARNESS, "go.sum"))
+    gomod = open(os.path.join(HARNESS, "go.mod.tmpl")).read().replace("@REPO@", REPO)
+    gm = os.path.join(HARNESS, "go.mod")
+    if not os.path.exists(gm) or open(gm).read() != gomod:
+        open(gm, "w").write(gomod)
     os.makedirs(os.path.join(HARNESS, "bin"), exist_ok=True)
     exe = os.path.join(HARNESS, "bin", cmd)
     rc, out = run(["go", "build", "-tags", "verif", "-o", exe, "./cmd/" + cmd], cwd=HARNESS, env=GOENV, timeout=1800)
